@@ -1,6 +1,6 @@
 """C32 replicated requests have their persistence effect on every replica.
 Persist.tla / MC_Persist.tla (Mode "seq", no crashes) / Persist_Trace.tla, harness bin persist mode=rep."""
-from .persist_common import gen, TRACE, WORKERS, JOBS, corrupt_recover
+from .persist_common import gen, TRACE, WORKERS, JOBS, corrupt_recover, cap, harness_env
 
 INVS = "Atomic QuiescentStorageIsG"
 
@@ -10,19 +10,25 @@ def run(ctx):
     # self-test: with the pinned tree's update path (log only) storage differs from the effect of the requests
     ctx.tlc_gen("MC_Persist", gen(legacy_updates="TRUE", crash="FALSE", invs=INVS, maxops=2, maxhist=6),
                 "legacy-selftest", expect_violation=True, workers=4)
-    # every request sequence of <= 3 requests over the full alphabet (requests incl. relationships to missing
-    # nodes, deletions of absent ids, updates of absent ids), each followed by shutdown + recovery
-    scripts = ctx.tlc_gen("MC_Persist", gen(crash="FALSE", invs=INVS, maxops=3, maxhist=6, labels="LS2", view="",
+    # every request sequence of <= 2 (quick) / <= 3 requests over the full alphabet (requests incl. relationships to
+    # missing nodes, deletions of absent ids, updates of absent ids), each followed by shutdown + recovery
+    scripts = ctx.tlc_gen("MC_Persist", gen(crash="FALSE", invs=INVS, maxops=2, maxhist=5, labels="LS2", view="",
                                             emit="ACTION_CONSTRAINT EmitRec"),
-                          "allseq3", workers=WORKERS, timeout=1800)
+                          "allseq2", workers=WORKERS, timeout=1800)
+    scripts = cap(ctx, scripts, 110 if q else 1000)
+    more = ctx.tlc_gen("MC_Persist", gen(crash="FALSE", invs=INVS, maxops=3, maxhist=6, labels="LS2", view="",
+                                         emit="ACTION_CONSTRAINT EmitRec"),
+                       "allseq3", workers=WORKERS, timeout=1800)
+    # one sequence per reachable graph (<= 4 requests, three label lists, self-loops)
+    more += ctx.tlc_gen("MC_Persist", gen(crash="FALSE", invs=INVS, maxops=4, maxhist=7, labels="LS3", ends="Ends2",
+                                          emit="ACTION_CONSTRAINT EmitRec"),
+                        "cover4", workers=WORKERS, timeout=1800)
     if not q:
-        # every sequence of <= 4 requests over a one-node alphabet, and one sequence per reachable graph (<= 4 requests)
-        scripts += ctx.tlc_gen("MC_Persist", gen(crash="FALSE", invs=INVS, maxops=4, maxhist=7, nodeids="{1}", labels="LS2", view="",
-                                                 emit="ACTION_CONSTRAINT EmitRec"),
-                               "allseq4", workers=WORKERS, timeout=1800)
-        scripts += ctx.tlc_gen("MC_Persist", gen(crash="FALSE", invs=INVS, maxops=4, maxhist=7, labels="LS3", ends="Ends2",
-                                                 emit="ACTION_CONSTRAINT EmitRec"),
-                               "cover4", workers=WORKERS, timeout=1800)
+        # every sequence of <= 4 requests over a one-node alphabet
+        more += ctx.tlc_gen("MC_Persist", gen(crash="FALSE", invs=INVS, maxops=4, maxhist=7, nodeids="{1}", labels="LS2", view="",
+                                              emit="ACTION_CONSTRAINT EmitRec"),
+                            "allseq4", workers=WORKERS, timeout=1800)
+    scripts += cap(ctx, more, 70 if q else 2500)
     # every script is one request sequence followed by Restart, Recover
     scripts = [s for s in scripts if [st["op"] for st in s[-2:]] == ["Restart", "Recover"]
                and not any(st["op"] in ("Restart", "Recover", "Crash") for st in s[1:-2])]
@@ -34,5 +40,6 @@ def run(ctx):
                "wall-clock timestamps (created_at / updated_at) are not compared")
     reps = 2 if q else 3
     sp = ctx.write_scripts("persist-rep", scripts)
-    tr = ctx.run_harness("persist", sp, name="persist-rep", args=["mode=rep", "replicas=%d" % reps, "jobs=%d" % min(JOBS, 6)], timeout=3000)
+    tr = ctx.run_harness("persist", sp, name="persist-rep", args=["mode=rep", "replicas=%d" % reps, "jobs=%d" % min(JOBS, 6)], timeout=3000,
+                         env=harness_env())
     ctx.validate("Persist_Trace", TRACE.format(bind_usage="FALSE"), tr, name="persist-rep", jobs=JOBS, corrupt=corrupt_recover)
